@@ -1461,7 +1461,7 @@ func TestVerifC16(t *testing.T) {
 		oc := chains[(ci+1+rng.Intn(len(chains)-1))%len(chains)]
 		return ch, ch.hdrs[i], ch.hdrs[j], oc.hdrs[rng.Intn(len(oc.hdrs))]
 	}
-	nMut := r.N(900, 60000)
+	nMut := r.N(750, 60000)
 	for it := 0; it < nMut; it++ {
 		_, orig, nb, other := pick()
 		h := orig.clone()
@@ -1513,7 +1513,7 @@ func TestVerifC16(t *testing.T) {
 	}
 
 	// ---- Verify: adjacent / non-adjacent pairs, honest and mutated
-	nVer := r.N(300, 20000)
+	nVer := r.N(260, 20000)
 	for it := 0; it < nVer; it++ {
 		ch, _, _, other := pick()
 		i := rng.Intn(len(ch.hdrs) - 1)
